@@ -65,13 +65,11 @@ func (in *Interp) deepEq(x, y Value, t types.Type, o *deepOpts) *Term {
 		if !ok {
 			return b.False
 		}
-		if a.Kind != c.Kind {
-			return b.False
+		if a.Kind != TimeZero && c.Kind != TimeZero && a.Kind != c.Kind {
+			// nanosecond- vs second-resolution instants: equal only if both are zero
+			return b.And(in.zflag(a), in.zflag(c))
 		}
-		if a.Kind == TimeZero {
-			return b.True
-		}
-		return b.Eq(a.V, c.V)
+		return in.timeEqual(a, c)
 	case PtrV:
 		c, ok := y.(PtrV)
 		if !ok {
